@@ -55,11 +55,11 @@ func allProps() []PropSpec {
 				{Func: "ZZ_C03_Boundary", Pkg: "pkg/protocol", Quick: map[string]int{"N": 6}, Thorough: map[string]int{"N": 8}, Covers: []string{"reached-end", "boundary-found"}},
 				{Func: "ZZ_C03_ParseUint", Pkg: "pkg/protocol", Quick: map[string]int{"N": 6}, Thorough: map[string]int{"N": 10}, Covers: []string{"reached-end", "parsed"}},
 				{Func: "ZZ_C03_HexInt", Pkg: "pkg/protocol/http1", Quick: map[string]int{"L": 17}, Thorough: map[string]int{"L": 20}, Covers: []string{"reached-assert", "parsed"}},
-				{Func: "ZZ_C03_CLI", Pkg: "pkg/protocol/http1/resp", Quick: map[string]int{"W": 1}, Thorough: map[string]int{"W": 2}, Covers: []string{"reached-end", "accepted", "rejected"}, Note: "client response read path: one (two) symbolic bytes at every position of six response shapes"},
+				{Func: "ZZ_C03_CLI", Pkg: "pkg/protocol/http1/resp", Quick: map[string]int{"W": 1}, Thorough: map[string]int{"W": 2, "ENUMCAP": 300}, Covers: []string{"reached-end", "accepted", "rejected"}, Note: "client response read path: one (two) symbolic bytes at every position of six response shapes"},
 				{Func: "ZZ_C03_MP", Pkg: "pkg/protocol/http1", Covers: []string{"reached-assert", "over-limit", "corrupted-form-refused"}, Unwind: 40000, MaxSteps: 8000000, Note: "multipart/form-data with the default form pre-parsing (real mime/multipart.Reader from SSA): declared length above the limit, or one symbolic ASCII byte at every position of the form"},
 				{Func: "ZZ_C03_SRV", Pkg: "pkg/protocol/http1", Quick: map[string]int{"W": 1}, Thorough: map[string]int{"W": 2, "ENUMCAP": 300}, Covers: []string{"reached-assert", "rejected", "accepted-both"}},
 			},
-			Assumptions: []string{"time.Parse/ParseInLocation is an opaque stub that succeeds or fails nondeterministically", "inputs longer than the stated bounds are outside the claim"},
+			Assumptions: []string{"time.Parse/ParseInLocation is an opaque stub that succeeds or fails nondeterministically", "inputs longer than the stated bounds are outside the claim", "SRV at W=2 (thorough): two adjacent symbolic bytes that are both hexadecimal digits are excluded (a symbolic multi-digit length makes the heap shape symbolic); every single symbolic byte is covered at W=1"},
 		},
 		{
 			ID: "C05",
@@ -181,11 +181,11 @@ func allProps() []PropSpec {
 		{
 			ID: "C20",
 			Harnesses: []HarnessSpec{
-				{Func: "ZZ_C20_H1", Pkg: "internal/tagexpr", Quick: map[string]int{"K": 2}, Thorough: map[string]int{"K": 3}, Covers: []string{"reached-assert", "bool-result", "nan-result", "unspecified-value-evaluated"}, MaxSteps: 4000000},
+				{Func: "ZZ_C20_H1", Pkg: "internal/tagexpr", Quick: map[string]int{"K": 2}, Thorough: map[string]int{"K": 3, "NUMS": 4}, Covers: []string{"reached-assert", "bool-result", "nan-result", "unspecified-value-evaluated"}, MaxSteps: 4000000},
 				{Func: "ZZ_C20_H2", Pkg: "internal/tagexpr", Quick: map[string]int{"K": 2}, Thorough: map[string]int{"K": 3}, Covers: []string{"reached-assert", "found"}, MaxSteps: 4000000, Note: "precedence inside function arguments: in(<chain>, c), !in(...), len('..') as an arithmetic operand"},
 				{Func: "ZZ_C20_H3", Pkg: "internal/tagexpr", Covers: []string{"reached-assert", "nil-field", "slice-field"}, MaxSteps: 4000000, Note: "field references $ / (F)$ with !, !! against boolean literals; field value injected through the interpreter's field table: nil, 0, 1, 7, true, false, '', 'ab', empty and non-empty []int (compared with itself)"},
 			},
-			Assumptions: []string{"parser/evaluator kernel: literal operands (H1), in()/len() with literal arguments (H2), current-field references whose value is injected through the field table (H3); reflect-based struct walking, sub-selectors, maps/slices, regexp() and the validator front end are outside", "well-typed chains only (ill-typed ones are assumed away)", "operands from {0,1,2,3,7}; one optional parenthesised group; spellings with single spaces or none (no '+'/'-' without spaces)", "Go's regexp package is executed from SSA for the literal lexers; reflect.ValueOf/Kind are modelled for basic kinds"},
+			Assumptions: []string{"parser/evaluator kernel: literal operands (H1), in()/len() with literal arguments (H2), current-field references whose value is injected through the field table (H3); reflect-based struct walking, sub-selectors, maps/slices, regexp() and the validator front end are outside", "well-typed chains only (ill-typed ones are assumed away)", "operands from {0,1,2,3,7,true,false} (thorough: chains of three operators over {0,1,2,3}); one optional parenthesised group; spellings with single spaces or none (no '+'/'-' without spaces)", "Go's regexp package is executed from SSA for the literal lexers; reflect.ValueOf/Kind are modelled for basic kinds"},
 		},
 		{
 			ID: "C10",
